@@ -50,12 +50,12 @@ func (l *limitConn) Read(p []byte) (int, error) {
 }
 
 type pairCfg struct {
-	Protocols []string
-	ProtoSel  string // nil|none|all|slice
-	ExtOffer  []string
-	ExtSel    string // nil|extension-all|extension-none|negotiate-accept|negotiate-decline|negotiate-error|negotiate-wsflate
-	CliHdr    int    // length of an extra client header value (0 none)
-	SrvHdr    int
+	Protocols                  []string
+	ProtoSel                   string // nil|none|all|slice
+	ExtOffer                   []string
+	ExtSel                     string // nil|extension-all|extension-none|negotiate-accept|negotiate-decline|negotiate-error|negotiate-wsflate
+	CliHdr                     int    // length of an extra client header value (0 none)
+	SrvHdr                     int
 	CRBuf, CWBuf, SRBuf, SWBuf int
 	CLimit, SLimit             int
 	HTTPServer                 bool
@@ -84,7 +84,9 @@ func negotiator(kind string) func(httphead.Option) (httphead.Option, error) {
 	case "negotiate-decline":
 		return func(o httphead.Option) (httphead.Option, error) { return httphead.Option{}, nil }
 	case "negotiate-error":
-		return func(o httphead.Option) (httphead.Option, error) { return httphead.Option{}, errors.New("negotiate boom") }
+		return func(o httphead.Option) (httphead.Option, error) {
+			return httphead.Option{}, errors.New("negotiate boom")
+		}
 	case "negotiate-wsflate":
 		e := &wsflate.Extension{Parameters: wsflate.Parameters{ServerNoContextTakeover: true, ClientNoContextTakeover: true}}
 		return e.Negotiate
@@ -637,69 +639,89 @@ func subDebugDialer() mon.Sub {
 			}
 			plans := xport.Plans(c.Rng.Int63(), nil)
 			plan := plans[c.I%len(plans)]
+			var cur net.Conn // the connection the next NetDial call hands out
 			mkDialer := func(conn net.Conn) ws.Dialer {
-				return ws.Dialer{ReadBufferSize: rb, Protocols: protos, NetDial: func(ctx context.Context, n, a string) (net.Conn, error) { return conn, nil }}
+				cur = conn
+				return ws.Dialer{ReadBufferSize: rb, Protocols: protos, NetDial: func(ctx context.Context, n, a string) (net.Conn, error) { return cur, nil }}
 			}
 			// reference: plain dialer
 			conn0 := mkConn(plan)
 			_, _, hs0, err0 := mkDialer(conn0).Dial(context.Background(), "ws://dbg.example/p")
+			// Each DebugDialer value is used for three dials in a row (a reconnect loop):
+			// every dial must behave like the first. Half of the cases carry the
+			// application's own WrapConn, which must see every connection exactly once.
+			userWrap := c.Rng.Intn(2) == 0
 			for mode := 1; mode <= 3; mode++ {
-				c.Count(1)
-				conn := mkConn(plan)
 				var gotReq, gotResp []byte
-				reqCalls, respCalls := 0, 0
-				dd := wsutil.DebugDialer{Dialer: mkDialer(conn)}
+				reqCalls, respCalls, wrapCalls := 0, 0, 0
+				dd := wsutil.DebugDialer{Dialer: mkDialer(nil)}
+				if userWrap {
+					dd.Dialer.WrapConn = func(nc net.Conn) net.Conn { wrapCalls++; return nc }
+				}
 				if mode&1 != 0 {
 					dd.OnRequest = func(p []byte) { reqCalls++; gotReq = append([]byte(nil), p...) }
 				}
 				if mode&2 != 0 {
 					dd.OnResponse = func(p []byte) { respCalls++; gotResp = append([]byte(nil), p...) }
 				}
-				det := map[string]interface{}{"choice": choice, "kind": kind, "plan": plan.String(), "mode": mode, "read_buf": rb, "trailing": len(tr), "cut": cut, "err_plain": fmt.Sprint(err0)}
-				sigKind := []string{"valid", "valid", "valid", "valid", "non101", "invalid101", "lf-only", "truncated"}[kind]
-				var nc net.Conn
-				var br *bufio.Reader
-				var hs ws.Handshake
-				var err error
-				panicked := func() (p interface{}) {
-					defer func() { p = recover() }()
-					nc, br, hs, err = dd.Dial(context.Background(), "ws://dbg.example/p")
-					return nil
-				}()
-				det["response_sent"] = string(headSent)
-				if panicked != nil {
-					det["panic"] = fmt.Sprint(panicked)
-					c.Fail("debug-dialer/panic/"+sigKind, fmt.Sprintf("DebugDialer.Dial panics: %v", panicked), det)
-					return
-				}
-				det["err_debug"] = fmt.Sprint(err)
-				if fmt.Sprint(err) != fmt.Sprint(err0) || hs.Protocol != hs0.Protocol || fmt.Sprint(hs.Extensions) != fmt.Sprint(hs0.Extensions) {
-					c.Fail("debug-dialer/outcome/"+sigKind, "DebugDialer changes the outcome or the handshake data", det)
-					return
-				}
-				if mode&1 != 0 && (reqCalls != 1 || !bytes.Equal(gotReq, reqSeen)) {
-					c.Fail("debug-dialer/on-request/"+sigKind, "OnRequest bytes differ from the bytes written to the connection", det)
-					return
-				}
-				if mode&2 != 0 {
-					det["on_response"] = string(gotResp)
-					if respCalls != 1 || !bytes.Equal(gotResp, headSent) {
-						c.Fail("debug-dialer/on-response/"+sigKind, fmt.Sprintf("OnResponse got %d bytes, the response (head + Content-Length body) has %d", len(gotResp), len(headSent)), det)
+				for round := 0; round < 3; round++ {
+					c.Count(1)
+					conn := mkConn(plan)
+					cur = conn
+					gotReq, gotResp, reqCalls, respCalls, wrapCalls = nil, nil, 0, 0, 0
+					det := map[string]interface{}{"choice": choice, "kind": kind, "plan": plan.String(), "mode": mode, "dial_number_on_this_DebugDialer": round + 1, "user_wrapconn": userWrap, "read_buf": rb, "trailing": len(tr), "cut": cut, "err_plain": fmt.Sprint(err0)}
+					sigKind := []string{"valid", "valid", "valid", "valid", "non101", "invalid101", "lf-only", "truncated"}[kind]
+					if round > 0 {
+						sigKind += "/redial"
+					}
+					var nc net.Conn
+					var br *bufio.Reader
+					var hs ws.Handshake
+					var err error
+					panicked := func() (p interface{}) {
+						defer func() { p = recover() }()
+						nc, br, hs, err = dd.Dial(context.Background(), "ws://dbg.example/p")
+						return nil
+					}()
+					det["response_sent"] = string(headSent)
+					if panicked != nil {
+						det["panic"] = fmt.Sprint(panicked)
+						c.Fail("debug-dialer/panic/"+sigKind, fmt.Sprintf("DebugDialer.Dial panics: %v", panicked), det)
 						return
 					}
-				}
-				if err == nil {
-					var got []byte
-					if br != nil {
-						p := make([]byte, br.Buffered())
-						io.ReadFull(br, p)
-						got = append(got, p...)
+					det["err_debug"] = fmt.Sprint(err)
+					if fmt.Sprint(err) != fmt.Sprint(err0) || hs.Protocol != hs0.Protocol || fmt.Sprint(hs.Extensions) != fmt.Sprint(hs0.Extensions) {
+						c.Fail("debug-dialer/outcome/"+sigKind, "DebugDialer changes the outcome or the handshake data", det)
+						return
 					}
-					rest, _ := io.ReadAll(nc)
-					got = append(got, rest...)
-					if !bytes.Equal(got, tr) {
-						det["got_len"] = len(got)
-						c.Fail("debug-dialer/post-handshake-bytes/"+sigKind, fmt.Sprintf("post-handshake bytes not preserved: got %d bytes, sent %d", len(got), len(tr)), det)
+					if mode&1 != 0 && (reqCalls != 1 || !bytes.Equal(gotReq, reqSeen)) {
+						c.Fail("debug-dialer/on-request/"+sigKind, "OnRequest bytes differ from the bytes written to the connection", det)
+						return
+					}
+					if mode&2 != 0 {
+						det["on_response"] = string(gotResp)
+						if respCalls != 1 || !bytes.Equal(gotResp, headSent) {
+							c.Fail("debug-dialer/on-response/"+sigKind, fmt.Sprintf("OnResponse got %d bytes, the response (head + Content-Length body) has %d", len(gotResp), len(headSent)), det)
+							return
+						}
+					}
+					if err == nil {
+						var got []byte
+						if br != nil {
+							p := make([]byte, br.Buffered())
+							io.ReadFull(br, p)
+							got = append(got, p...)
+						}
+						rest, _ := io.ReadAll(nc)
+						got = append(got, rest...)
+						if !bytes.Equal(got, tr) {
+							det["got_len"] = len(got)
+							c.Fail("debug-dialer/post-handshake-bytes/"+sigKind, fmt.Sprintf("post-handshake bytes not preserved: got %d bytes, sent %d", len(got), len(tr)), det)
+							return
+						}
+					}
+					if userWrap && wrapCalls != 1 || (dd.Dialer.WrapConn != nil) != userWrap {
+						c.Fail("debug-dialer/wrapconn/"+sigKind, fmt.Sprintf("the application's Dialer.WrapConn was called %d times (want 1 when set) / set after Dial: %v (was set: %v)", wrapCalls, dd.Dialer.WrapConn != nil, userWrap), det)
 						return
 					}
 				}
@@ -716,7 +738,7 @@ func main() {
 		Property: "C11",
 		Level:    "exploration",
 		Rule: "(pair) library dialer <-> library upgrader (ws.Upgrader, and ws.HTTPUpgrader behind net/http) over an in-memory duplex, two goroutines, configurations = 4 protocol lists x 4 selectors x 4 extension offers x 7 extension selectors/negotiators x I/O buffer sizes {0,16,17,64,256,4096} on each side x read limiters {none,1,2,13,random} x extra header lines of length buf-2..buf+2 and 3*buf: both succeed with equal protocol/extensions or both fail. " +
-			"(single peer) the same request / response derivation run under 5 chunk plans and buffer sizes must give identical outcome, handshake data and bytes written (dialer requests compared with the random key masked). (debug wrappers) DebugUpgrader / DebugDialer with each callback combination vs the unwrapped run: same outcome and data, callbacks get exactly the bytes exchanged, post-handshake bytes preserved; responses: valid 101 with trailing frames {0,1,100,5000}, non-101 with bodies, invalid 101, LF-only, empty/truncated. distinct = configuration classes.",
+			"(single peer) the same request / response derivation run under 5 chunk plans and buffer sizes must give identical outcome, handshake data and bytes written (dialer requests compared with the random key masked). (debug wrappers) DebugUpgrader / DebugDialer with each callback combination vs the unwrapped run: same outcome and data, callbacks get exactly the bytes exchanged, post-handshake bytes preserved, each DebugDialer value used for three dials in a row with and without an application WrapConn; responses: valid 101 with trailing frames {0,1,100,5000}, non-101 with bodies, invalid 101, LF-only, empty/truncated. distinct = configuration classes.",
 		Assumptions: []string{"a pair stuck for 60 s is inconclusive, not a violation", "requests that net/http itself refuses are not sent through DebugUpgrader"},
 		Subs:        []mon.Sub{subPairs(), subUpgraderChunking(), subDialerChunking(), subDebugUpgrader(), subDebugDialer()},
 	})
